@@ -30,7 +30,7 @@ TRUSTED = ["numpy.linalg.cond (2-norm condition number) only to scale the class-
 
 K_QR = 32          # x eps x kappa   (entries of Q; entries of R additionally x max|M|)
 K_ORA = 64         # x eps x n       (backward-stable residuals ‖QR−M‖/‖M‖ and ‖QᵀQ−1‖)
-K_EIG = 1024       # x eps x max|lambda|: absolute accuracy of each eigenvalue
+K_EIG = 2048       # x eps x max|lambda|: absolute accuracy of each eigenvalue
 RES_TOL = 1e-8     # ‖Mv−λv‖ / ‖M‖ for eigenpairs (the loop's own tolerance is 1e-10 on the components)
 
 
@@ -212,6 +212,61 @@ def sym_matrix(rng, k, nmax=7):
     return Mf, lam, fam
 
 
+def sym_from(Q, lam):
+    n = len(lam)
+    D = fmat(n, lambda i, j: lam[i] if i == j else Fraction(0))
+    M = mmul(mmul(Q, D), mT(Q))
+    return [[float(M[i][j]) if i <= j else float(M[j][i]) for j in range(n)] for i in range(n)]
+
+
+def traceless_spectrum(rng, n):
+    """n >= 3 rationals of both signs, sum exactly 0, magnitudes separated by ratios in [0.1, 0.8]"""
+    while True:
+        lam = [Fraction(rng.choice([-1, 1]) * rng.randint(16, 160), 16)]
+        for _ in range(n - 2):
+            lam.append(lam[-1] * Fraction(rng.randint(2, 12), 16) * rng.choice([-1, 1]))
+        lam.append(-sum(lam))
+        mags = sorted((abs(x) for x in lam), reverse=True)
+        if mags[-1] > 0 and all(Fraction(1, 10) <= mags[i + 1] / mags[i] <= Fraction(4, 5) for i in range(n - 1)):
+            return lam
+
+
+def traceless_family(rng, nrandom):
+    """(matrix, spectrum, family) — deterministic members first (independent of VERIF_SEED), then random ones.
+    A generic dense rational orthogonal Q (or dense blocks with exact zeros between them, or no Q at all) is
+    applied with the largest eigenvalues first, so the iteration does not start near an unsorted fixed point."""
+    out = []
+    det = random.Random(15015)
+    F = Fraction
+    fixed = [[F(5), F(-4), F(-1)], [F(5), F(-4), F(-8, 5), F(3, 5)], [F(8), F(-6), F(-4), F(3), F(-3, 2), F(1, 2)],
+             [F(3), F(-2), F(-1)], [F(16), F(-12), F(-8), F(5), F(-5, 2), F(2), F(-1, 2)]]
+    for lam in fixed:
+        n = len(lam)
+        out.append((sym_from(fmat(n, lambda i, j: F(int(i == j))), lam), lam, "traceless-diagonal"))
+        out.append((sym_from(cayley(det, n), lam), lam, "traceless-dense"))
+        if n >= 4:
+            m = n // 2
+            # each block gets eigenvalues in decreasing magnitude; blocks are coupled by exact zeros only
+            out.append((sym_from(block_diag([cayley(det, m), cayley(det, n - m)]), lam), lam, "traceless-block"))
+    for k in range(nrandom):
+        n = rng.choice([3, 3, 4, 4, 5, 6, 7])
+        lam = sorted(traceless_spectrum(rng, n), key=abs, reverse=True)
+        c = k % 4
+        if c == 0:
+            Q = fmat(n, lambda i, j: F(int(i == j))); fam = "traceless-diagonal"
+        elif c == 1 and n >= 4:
+            m = rng.randint(2, n - 2)
+            Q = block_diag([cayley(rng, m), cayley(rng, n - m)]); fam = "traceless-block"
+        else:
+            Q = cayley(rng, n); fam = "traceless-dense"
+        if k % 3 == 2:      # nearly traceless: the sum is ~1e-9 of sum|lambda|
+            lam = list(lam)
+            lam[0] = lam[0] + sum(abs(x) for x in lam) * F(rng.randint(1, 9), 10 ** 9)
+            fam += "-near"
+        out.append((sym_from(Q, lam), lam, fam))
+    return out
+
+
 def generate(tier, seed, ctx):
     rng = random.Random(seed * 15485863 + 15)
     thorough = tier == "thorough"
@@ -227,6 +282,10 @@ def generate(tier, seed, ctx):
     R.append(req_matrix("c15.qr", [[1.0, 2.0], [2.0, 4.0]]))
     for k in range(500 if thorough else 50):
         M, lam, fam = sym_matrix(rng, k)
+        R.append(req_matrix("c15.spectrum", M)); meta[R[-1]] = ("eig", fam, lam)
+    # traceless / nearly traceless spectra (eigenvalues of both signs summing to 0 or to ~1e-9 of sum|lambda|): the
+    # convergence test must be normalised by sum|A_jj|, not by the trace
+    for M, lam, fam in traceless_family(rng, 60 if thorough else 14):
         R.append(req_matrix("c15.spectrum", M)); meta[R[-1]] = ("eig", fam, lam)
     # the repository's own test matrix
     T3 = [[2.0, -1.0, 0.0], [-1.0, 2.0, -1.0], [0.0, -1.0, 2.0]]
@@ -398,9 +457,17 @@ def compare_spectrum(rq, n, M, impl, model, meta, ctx):
     if tm in ("ok", "err"):
         ctx["nontrivial"].add(_key("c15.spectrum", n, M, meta, model))
     if ti == "err":
-        if lam is not None or tm == "ok":
-            return [fail("prop", "Eigenvalues: stopped with 'did not converge in 200 steps' on a symmetric matrix whose eigenvalues are separated in magnitude", "model: " + tm)]
-        return []
+        if lam is None and tm != "ok":
+            return []
+        msteps = int(toks(model)[-1]) if tm == "ok" else None
+        if msteps is not None and msteps <= 150:
+            # the coded iteration converges in exact arithmetic with a wide margin: not the slow passage past an
+            # unsorted fixed point (recorded finding), the implementation's convergence test / loop is at fault
+            what = "a traceless" if meta and str(meta[1]).startswith("traceless") else "a"
+            return [fail("prop", "Eigenvalues: did not return the spectrum of %s symmetric matrix on which the coded iteration converges "
+                                 "(stopped with 'did not converge in 200 steps')" % what, "the exact model converges after %d steps" % msteps)]
+        return [fail("prop", "Eigenvalues: stopped with 'did not converge in 200 steps' on a symmetric matrix whose eigenvalues are separated in magnitude",
+                     "model: " + (tm if msteps is None else "ok after %d steps" % msteps))]
     if ti != "ok":
         return [fail("corr", "unknown harness tag " + ti, "")]
     t = toks(impl)
